@@ -52,6 +52,10 @@ type Options struct {
 	// syncer holds (the block was reorged away on L1 and the syncer has not processed the reorg yet), with the
 	// finalized pointer at that block and one past it. Only when that block was never finalized in the scenario.
 	L1OrphanEpilogue bool
+	// DroppedL1ForkPrologue: the L1 info store may have synced a competing fork first — the same L1 transactions with two
+	// leaf-adding ones of one block in the other order (world.SwapVariants), one choice per such variant — and was rewound
+	// from block 1 before it synced the canonical chain.
+	DroppedL1ForkPrologue bool
 }
 
 const (
@@ -335,6 +339,25 @@ func Run(c *mc.Ctx, u mc.Unit, opt Options, oracle Oracle) {
 		panic(err)
 	}
 	defer st.Close()
+	if opt.DroppedL1ForkPrologue {
+		if vs := world.SwapVariants(p.Ops); len(vs) > 0 {
+			if v := c.Choose(1+len(vs), "l1-info-store-synced-a-competing-fork-first"); v > 0 {
+				w2, err := world.Build(vs[v-1])
+				if err != nil {
+					panic(err)
+				}
+				if err := w2.LoadL1(ctx, st, false); err != nil {
+					c.Failf("world-sanity/l1-store-rejects-block", "dropped fork [%s]: %v", world.OpsString(vs[v-1]), err)
+					return
+				}
+				if err := st.L1Info.VerifStore().Reorg(ctx, 1); err != nil {
+					c.Failf("world-sanity/l1-store-reorg", "dropped fork [%s]: Reorg(1): %v", world.OpsString(vs[v-1]), err)
+					return
+				}
+				c.Witness("l1_info_stores_that_synced_a_competing_fork_first")
+			}
+		}
+	}
 	if err := w.LoadL1(ctx, st, false); err != nil {
 		c.Failf("world-sanity/l1-store-rejects-block", "scenario [%s]: %v", world.OpsString(p.Ops), err)
 		return
